@@ -296,3 +296,39 @@ Proof.
   split; [intros k Hk; apply knn_all_b_sound; [vm_compute; reflexivity|auto|lia]|].
   split; vm_compute; reflexivity.
 Qed.
+
+(* ------------------------------------------------------------ tie_free is necessary.
+   Five DISTINCT samples on a line at 0,1,2,3,6 (sample 1 sees 0 and 2 at the same
+   distance, ...), requested k = 3 (the smallest the library accepts).  Both searches below
+   return exact 3-NN lists; they differ only in which of two equidistant samples they keep
+   (the reference search keeps the one supplied first).  Supplied forwards the 3-graph is not
+   strongly connected and 4 neighbours are returned; supplied backwards it is, and 3 are
+   returned.  So with ties the decision depends on how the search breaks them, hence on the
+   order of the samples: no statement of order independence can hold for "any exact search"
+   on tied data. *)
+Definition tied5_pts : list (Z * Z) := [(0, 0); (1, 0); (2, 0); (3, 0); (6, 0)]%Z.
+Definition tied5_rev : list nat := [4; 3; 2; 1; 0].
+
+Lemma main_cc_ties_order_refuted :
+  exists pts p k,
+    let N := length pts in
+    NoDup pts /\ is_perm N p /\ 3 <= k /\ k <= N - 1 /\
+    (forall k', k' <= N - 1 -> is_knn_graph (pdist pts) N k' (knn_brute pts k')) /\
+    (forall k', k' <= N - 1 ->
+       is_knn_graph (fun v u => pdist pts (nth v p 0) (nth u p 0)) N k' (knn_brute (rev pts) k')) /\
+    exists k1 k2 g1 g2, k1 <> k2 /\
+      find_neighbors is_connected_fixed (knn_brute pts) N N k true = COk (k1, g1) /\
+      find_neighbors is_connected_fixed (knn_brute (rev pts)) N N k true = COk (k2, g2).
+Proof.
+  exists tied5_pts, tied5_rev, 3. cbv zeta. change (length tied5_pts) with 5.
+  split.
+  { unfold tied5_pts. repeat constructor; cbn; intuition congruence. }
+  split.
+  { unfold is_perm, tied5_rev. apply Permutation_sym.
+    change [4; 3; 2; 1; 0] with (rev (seq 0 5)). apply Permutation_rev. }
+  split; [lia|]. split; [lia|].
+  split; [intros k Hk; apply knn_all_b_sound; [vm_compute; reflexivity|auto|lia]|].
+  split; [intros k Hk; apply knn_all_b_sound; [vm_compute; reflexivity|auto|lia]|].
+  exists 4, 3, (knn_brute tied5_pts 4), (knn_brute (rev tied5_pts) 3).
+  split; [lia|]. split; vm_compute; reflexivity.
+Qed.
